@@ -151,6 +151,10 @@ class RegexParser:
         """
         self.pos = 0
         self.group_count = 0
+        # A backreference may name a group that opens later in the pattern
+        # (/\\1(a)/, or any reference inside a lookbehind), so the groups of the
+        # whole pattern are counted up front.
+        self.total_groups = self._count_capturing_groups()
 
         if not self.pattern:
             return Alternative([]), 1  # Empty pattern matches empty string
@@ -163,6 +167,27 @@ class RegexParser:
             )
 
         return ast, self.group_count + 1  # +1 for group 0 (full match)
+
+    def _count_capturing_groups(self) -> int:
+        """Number of capturing groups: every "(" not followed by "?", outside
+        character classes and not escaped."""
+        count = 0
+        in_class = False
+        i = 0
+        pattern = self.pattern
+        while i < len(pattern):
+            ch = pattern[i]
+            if ch == "\\":
+                i += 2
+                continue
+            if in_class:
+                in_class = ch != "]"
+            elif ch == "[":
+                in_class = True
+            elif ch == "(" and pattern[i + 1 : i + 2] != "?":
+                count += 1
+            i += 1
+        return count
 
     def _peek(self) -> Optional[str]:
         """Look at current character without consuming."""
@@ -480,7 +505,7 @@ class RegexParser:
             while self._peek() is not None and self._peek().isdigit():
                 num += self._advance()
             group_num = int(num)
-            if group_num > self.group_count:
+            if group_num > self.total_groups:
                 # Might be octal or invalid - treat as literal for now
                 raise RegExpError(f"Invalid backreference \\{group_num}")
             return Backref(group_num)
